@@ -6,6 +6,7 @@ import Pyunicorn.Lemmas.LineDistEntropy
 import Pyunicorn.Lemmas.LineDistRnd64
 import Pyunicorn.Lemmas.LineDistMethods
 import Pyunicorn.Lemmas.LineDistLoops
+import Pyunicorn.Lemmas.LineDistOverflow
 /-!
 # C08 — RQA line statistics are exact run-length counts of the matrix
 
@@ -1245,6 +1246,70 @@ example : StructC08.supremum_rp_loops (xOps id) 3 1 (accX [[.fin 0], [.fin 2], [
   decide +kernel
 
 end Methods
+
+/-! ## Round 5 — overflow of a finite difference to `inf`
+
+The driver executes the generated kernels at `xOpsO rnd64` (`abs(a - b)` overflows to `+inf` from
+`2^1024` on).  Where nothing overflows this is `xOps rnd64`, about which everything above is proved;
+nothing overflows when the finite samples are at most `2^1022` in magnitude — every embedding the
+class can hold is a converted float32 array (`|x| < 2^128`). -/
+section Overflow
+open Pyunicorn.Generated
+
+/-- **without an overflowing coordinate difference the kernels with overflow are the kernels
+without**: the four sequential kernels and the distance kernel of the matrix mode -/
+theorem overflow_free_kernels (rnd : Rat → Rat) (E : Int → Int → X) (dim : Nat)
+    (h : NoOvf rnd E dim) (n : Int) (hist : List Nat) (eps : X) (M : Int → Bool) :
+    StructC08._vertline_dist_sequential (xOpsO rnd) n hist E eps dim
+        = StructC08._vertline_dist_sequential (xOps rnd) n hist E eps dim ∧
+    StructC08._diagline_dist_sequential (xOpsO rnd) n hist E eps dim
+        = StructC08._diagline_dist_sequential (xOps rnd) n hist E eps dim ∧
+    StructC08._vertline_dist_sequential_missingvalues (xOpsO rnd) n hist E eps dim M
+        = StructC08._vertline_dist_sequential_missingvalues (xOps rnd) n hist E eps dim M ∧
+    StructC08._diagline_dist_sequential_missingvalues (xOpsO rnd) n hist E eps dim M
+        = StructC08._diagline_dist_sequential_missingvalues (xOps rnd) n hist E eps dim M ∧
+    ∀ a b, StructC08._supremum_distance_matrix_rp (xOpsO rnd) n dim E a b
+        = StructC08._supremum_distance_matrix_rp (xOps rnd) n dim E a b :=
+  ⟨seqO_vertline_eq rnd E dim h n hist eps, seqO_diagline_eq rnd E dim h n hist eps,
+    seqO_vertline_mv_eq rnd E dim h n hist eps M, seqO_diagline_mv_eq rnd E dim h n hist eps M,
+    fun a b => distO_eq rnd E dim h n a b⟩
+
+/-- **bounded samples never overflow in binary64**: finite samples up to `2^1022` in magnitude
+(every float32 a fortiori; infinite and NaN samples are allowed) -/
+theorem bounded_samples_never_overflow (E : Int → Int → X) (dim : Nat)
+    (h : BoundedBy (Visibility.pow2 1022) E) : NoOvf rnd64 E dim :=
+  noOvf_of_bounded E dim h
+
+/-- the chain for what the driver executes: the sequential kernels *with overflow* at binary64
+are run-length counts of the stored matrix, for every embedding with bounded finite samples -/
+theorem seq64O_vertline_runs (emb : List (List X)) (eps : X) (dim : Nat)
+    (h : BoundedBy (Visibility.pow2 1022) (accX emb)) :
+    StructC08._vertline_dist_sequential (xOpsO rnd64) emb.length (List.replicate emb.length 0)
+        (accX emb) eps dim
+      = histOfRuns (rowsOf (fixedThresholdX rnd64 emb eps dim false) true emb.length) emb.length := by
+  rw [seqO_vertline_eq rnd64 _ dim (noOvf_of_bounded _ dim h)]
+  exact seq64_vertline_runs emb eps dim
+
+theorem seq64O_diagline_runs (emb : List (List X)) (eps : X) (dim : Nat)
+    (h : BoundedBy (Visibility.pow2 1022) (accX emb)) :
+    StructC08._diagline_dist_sequential (xOpsO rnd64) emb.length (List.replicate emb.length 0)
+        (accX emb) eps dim
+      = histOfRuns (diagsOf (fixedThresholdX rnd64 emb eps dim false) emb.length) emb.length := by
+  rw [seqO_diagline_eq rnd64 _ dim (noOvf_of_bounded _ dim h)]
+  exact seq64_diagline_runs emb eps dim
+
+/-- the overflow is real and matters only for `threshold = inf`: `±1.5·2^1023` are doubles, their
+difference `3·2^1023 ≥ 2^1024` is `+inf`; the pair is not recurrent even for an infinite threshold,
+while the model without overflow would accept it -/
+example : X.absdiffO rnd64 (.fin (3 * 2 ^ 1022)) (.fin (-(3 * 2 ^ 1022))) = .pinf ∧
+    X.absdiff rnd64 (.fin (3 * 2 ^ 1022)) (.fin (-(3 * 2 ^ 1022))) = .fin (3 * 2 ^ 1023) ∧
+    (xOpsO rnd64).lt (StructC08.metric_supremum (xOpsO rnd64) 0 1 1
+      (fun a _ => .fin (if a = 0 then 3 * 2 ^ 1022 else -(3 * 2 ^ 1022)))) .pinf = false ∧
+    (xOps rnd64).lt (StructC08.metric_supremum (xOps rnd64) 0 1 1
+      (fun a _ => .fin (if a = 0 then 3 * 2 ^ 1022 else -(3 * 2 ^ 1022)))) .pinf = true := by
+  decide +kernel
+
+end Overflow
 
 /-! ## Round 4 — `RecurrencePlot.diagline_dist()` as a whole (Python layer included) -/
 section PyLayer
